@@ -31,8 +31,9 @@ func Verif_C22_Quick() {
 	}
 }
 
-// Verif_C22_FixedNoRoom: the two known-finding situations of the fixed-size builder (see
-// Verif_C22_FixedNoRoomForPrefix and Verif_C22_FixedNoRoomForASN1Length) in one process.
+// Verif_C22_FixedNoRoom: the two formerly defective situations of the fixed-size builder (see
+// Verif_C22_FixedNoRoomForPrefix and Verif_C22_FixedNoRoomForASN1Length; fixed in 4f257bb and
+// 681cb4c) in one process: Bytes() must return an error, nothing panics, nothing is truncated.
 func Verif_C22_FixedNoRoom() {
 	if verifrt.Choose(0, 1) == 0 {
 		Verif_C22_FixedNoRoomForPrefix()
